@@ -38,18 +38,22 @@ ASSUMPTIONS = [
 ]
 
 
-def c_pn_first(c):
-    return z3.Or(z3.And(c >= 65, c <= 90), z3.And(c >= 97, c <= 122), z3.And(c >= 48, c <= 57), c == 95)
+def c_pn_first(c):      # PN_LOCAL: letters, digits, '_' and ':' (a colon is legal anywhere in a local name)
+    return z3.Or(z3.And(c >= 65, c <= 90), z3.And(c >= 97, c <= 122), z3.And(c >= 48, c <= 57), c == 95, c == 58)
 
 
 def c_pn_rest(c):
     return z3.Or(c_pn_first(c), c == 45, z3.And(c >= 0xC0, c <= 0xD6))
 
 
-def _pn_local(ex, tag, k):
+def _pn_local(ex, tag, k, colon=True):
+    """k free characters of a prefixed-name local part; colon=False for relative IRI references (a ':' there would make them absolute IRIs)."""
     out = []
     for i in range(k):
-        out.extend(_free(ex, "%s_%d" % (tag, i), 1, c_pn_first if i == 0 else c_pn_rest))
+        cs = _free(ex, "%s_%d" % (tag, i), 1, c_pn_first if i == 0 else c_pn_rest)
+        if not colon:
+            ex.add(cs[0] != 58)
+        out.extend(cs)
     return out
 
 
@@ -64,14 +68,14 @@ def _term(ex, tag, t, env):
         body = SymStr(tuple(t.get("base", "http://x.y/")) + tuple(_free(ex, tag, t.get("k", 0), c_iri)) + tuple(t.get("post", "")))
         return "<" + body + ">", dict(cls="IRI", val=body), dict(iri=body)
     if kind == "rel":
-        rel = SymStr(tuple(t.get("lead", "")) + tuple(_pn_local(ex, tag, t.get("k", 1))))
+        rel = SymStr(tuple(t.get("lead", "")) + tuple(_pn_local(ex, tag, t.get("k", 1), colon=False)))
         return "<" + rel + ">", dict(cls="IRI", val=env["base"] + rel), dict(rel=rel)
     if kind == "a":
         return "a", dict(cls="IRI", val=RDF_TYPE), {}
     if kind == "rdftype":
         return "rdf:type", dict(cls="IRI", val=RDF_TYPE), {}
     if kind == "bn":
-        label = SymStr(tuple("_:b") + tuple(_pn_local(ex, tag, t.get("k", 0))))
+        label = SymStr(tuple("_:b") + tuple(_pn_local(ex, tag, t.get("k", 0), colon=False)))
         return label, dict(cls="BNode", val=label), dict(label=label)
     if kind == "int":
         return t["text"], dict(cls="Literal", val=XSD_INTEGER), {}
@@ -98,7 +102,7 @@ def _term(ex, tag, t, env):
             parts["dt"] = dt
             return q + "^^<" + dt + ">", dict(cls="Literal", val=dt), parts
         if sfx == "dt_rel":     # datatype IRI relative to @base
-            rel = SymStr(tuple("t") + tuple(_pn_local(ex, tag + "_d", t.get("dt_k", 1))))
+            rel = SymStr(tuple("t") + tuple(_pn_local(ex, tag + "_d", t.get("dt_k", 1), colon=False)))
             parts["dt"] = env["base"] + rel
             return q + "^^<" + rel + ">", dict(cls="Literal", val=env["base"] + rel), parts
         if sfx == "dt_pn":
